@@ -169,7 +169,21 @@ fn logical_requests(g: &mut Rng, secrets: &HashMap<String, String>) -> Vec<(Stri
     bad.body.truncate(cut);
     v.push(("aws-chunked/missing-final-chunk".into(), bad, true, tokens));
     // 4. multipart/form-data POST, valid and with a bad signature
-    let (form, _, _) = c10::gen_form_pub(g, secrets);
+    let (form0, _, _) = c10::gen_form_pub(g, secrets);
+    // a second form whose file holds a line that merely STARTS with the form's delimiter (CRLF--boundary followed by other
+    // bytes): whether an implementation takes that for the end of the file or not, it must not depend on the framing
+    let mut form1 = form0.clone();
+    {
+        let mut f = g.bytes_upto(40);
+        for _ in 0..1 + g.usize_below(3) {
+            f.extend_from_slice(format!("\r\n--{}", form1.boundary).as_bytes());
+            f.extend_from_slice(*g.pick(&[&b"X"[..], b"-x", b"\rX", b"-\r\n", b"xy\r\n", b"\n"]));
+            f.extend(g.bytes_upto(30));
+        }
+        form1.file = f;
+    }
+    for (vi, form) in [form0, form1].into_iter().enumerate() {
+    let fkind = if vi == 0 { "post-form" } else { "post-form-with-delimiter-text-in-the-file" };
     let req = form.request(None);
     let body = req.body.clone();
     let delim = format!("--{}", form.boundary);
@@ -201,14 +215,15 @@ fn logical_requests(g: &mut Rng, secrets: &HashMap<String, String>) -> Vec<(Stri
     tokens.retain(|t| *t < body.len());
     tokens.sort_unstable();
     tokens.dedup();
-    v.push(("post-form".into(), req.clone(), true, tokens.clone()));
+    v.push((fkind.into(), req.clone(), true, tokens.clone()));
     let mut bad_form = form.clone();
     bad_form.set("x-amz-signature", &"0".repeat(64));
-    v.push(("post-form/bad-signature".into(), bad_form.request(None), true, tokens.clone()));
+    v.push((format!("{fkind}/bad-signature"), bad_form.request(None), true, tokens.clone()));
     let mut bad = req;
     let n = bad.body.len();
     bad.body.truncate(n - 5);
-    v.push(("post-form/truncated".into(), bad, true, tokens));
+    v.push((format!("{fkind}/truncated"), bad, true, tokens));
+    }
     v
 }
 
